@@ -1155,7 +1155,10 @@ def _gen_tree(rng, depth, leaves=None):
         return ['leaf', rng.choice(leaves), rng.getrandbits(16)]
     op = rng.choice(['add', 'add', 'sub', 'sub', 'lscal', 'lscal', 'rscal',
                      'comp', 'lvec', 'rvec', 'neg', 'vecadd', 'div',
-                     'same_add', 'same_comp', 'pw', 'same_pw'])
+                     'same_add', 'same_comp', 'pw', 'same_pw', 'pow'])
+    if op == 'pow':
+        # A ** n: a chain of compositions odl builds itself (seed z03)
+        return [op, rng.choice([2, 3, 3, 4]), _gen_tree(rng, depth - 1, leaves)]
     if op in ('same_add', 'same_comp', 'same_pw'):
         # the very same operator object on both sides
         return [op, _gen_tree(rng, depth - 1, leaves)]
@@ -1253,6 +1256,8 @@ def _build_tree(t, S, cfg):
         return _build_tree(t[2], S, cfg) / t[1]
     if op == 'neg':
         return -_build_tree(t[1], S, cfg)
+    if op == 'pow':
+        return _build_tree(t[2], S, cfg) ** t[1]
     v = SP.rand_elem(S, data(cfg, 'vec', t[1]))
     if op == 'lvec':
         return v * _build_tree(t[2], S, cfg)
@@ -1272,7 +1277,7 @@ def tree_str(t):
     if t[0] in ('same_add', 'same_comp', 'same_pw'):
         sym = {'same_add': '+', 'same_comp': 'o', 'same_pw': '.*'}[t[0]]
         return '(B{}B: B={})'.format(sym, tree_str(t[1]))
-    if t[0] in ('lscal', 'rscal', 'div'):
+    if t[0] in ('lscal', 'rscal', 'div', 'pow'):
         return '{}[{}]({})'.format(t[0], t[1], tree_str(t[2]))
     if t[0] == 'neg':
         return '-({})'.format(tree_str(t[1]))
